@@ -40,7 +40,10 @@ def create (avail : Nat → Bool) (id k m w hd : Int) (ct : Nat) : Except Int In
     if w' != 8 && w' != 16 && w' != 32 then .error (-EBACKENDINITERR) else mk 32
   | 3 => if xorShapeOK k m hd then mk 32 else .error (-EBACKENDINITERR)
   | 6 => mk 16
-  | 4 | 7 => if m < 1 then .error (-EBACKENDINITERR) else mk 8
+  | 4 | 7 =>
+    -- isa_l_common_init: w defaults to 8, k + m must not exceed 2^w; w is stored as given
+    let w' := if w ≤ 0 then 8 else w
+    if w' ≥ 63 || k + m > (2 : Int) ^ w'.toNat then .error (-EBACKENDINITERR) else mk w'.toNat
   | _ => .error (-EBACKENDINITERR)
 
 end Lec
